@@ -109,7 +109,8 @@ PROPS = {
         partial="parser totality/termination/determinism for all byte strings (PEG-generated parsers are not modelled), goroutine leaks, timeout goroutine timing, blocking of CancelQuery on a full StateChan with a stalled consumer: NOT decided by proof",
     ),
     "C20": dict(
-        suites=[("alert", 1200, 20000)],
+        suites=[("alert", 1200, 20000), ("kv", 1500, 30000)],
+        handlers=["C20K"],
         facts={"const.AlertState_Inactive": "0", "const.AlertState_Normal": "1", "const.AlertState_Pending": "2", "const.AlertState_Firing": "3"},
         trusted_base=["the webhook transport is a parameter of the model (sendOk); the clock is a parameter (minutes): the harness moves time by shifting notification_details.last_sent_time in whole minutes, sub-minute real time only adds to the elapsed time",
                       "gorm/sqlite (alert, history and notification rows) by correspondence only"],
@@ -133,17 +134,20 @@ PROPS = {
                      "a zero timestamp never reaches the writer (GetNewPLE substitutes the current time); ts_zero_counterexample shows what would happen"],
     ),
     "C02": dict(
+        handlers=["C02K"],
         suites=[("e2e_c02", 150, 4000)],
         decided_by_proof="query time-range tests (record filter = inclusive membership, block filter = range intersection, pruning sound) on kernels regenerated from the source",
         partial="typed comparison, wildcard/term matching and boolean structure: end-to-end differential against the Lean specification (SigModel/Spec/Logs.lean); Go regexp engine and SPL parser are glue",
     ),
     "C03": dict(
-        suites=[("e2e_c03", 150, 4000)],
+        suites=[("e2e_c03", 150, 4000), ("bloom", 4000, 60000)],
+        handlers=["C03B"],
         decided_by_proof="range micro-index skip rule is sound for all six operators (signed, unsigned, float) on kernels regenerated from the source; counterexample theorem for != with records lacking the column",
         partial="bloom keys, dictionary search, PQS, sort index, agile tree, rollups, parallelism: metamorphic end-to-end differential only",
     ),
     "C04": dict(
-        suites=[("e2e_c04", 150, 4000)],
+        suites=[("e2e_c04", 150, 4000), ("stats", 4000, 60000)],
+        handlers=["C04S"],
         decided_by_proof="time buckets partition the range (regenerated FindTimeRangeBucket): containment, grid alignment, clamped branches",
         partial="count/sum/min/max/avg by group: end-to-end differential against the specification; dc and percentiles (HLL / t-digest sketches) are not modelled",
     ),
